@@ -124,4 +124,18 @@ CHECKS = {
                 text='Generated documents with 1-10 headings (ATX/setext, in and outside containers) are rendered under random depth / omit_title / '
                      'filter options and the resulting List token is compared entry by entry (text, order, nesting) with the model.',
                 note='Documents whose qualifying headings do not form an outline are only counted (nesting is undefined for them).'),
+    'C09': dict(category='exploration', design_ref='DESIGN.md section 5, C09',
+                technique='relational monitor over recorded executions: x -> MD(x) -> MD(MD(x)), meaning compared through the HTML renderer and the definition table',
+                text='For all 652 spec examples and generated documents (canonical and non-canonical spellings; one third in the renderer\'s own '
+                     'normal form), under normalize_whitespace False and True: the round-tripped text must render to identical HTML with an '
+                     'identical definition table, a second round trip must be byte-identical, and normal-form input must be reproduced byte for byte.',
+                note='The property\'s excluded input classes and three further mechanisms are known findings listed per spec example; the '
+                     'generated domain leaves their shapes out (generator switches) so that any other difference is reported.'),
+    'C10': dict(category='exploration', design_ref='DESIGN.md section 5, C10',
+                technique='relational + output-invariant monitor: reflowed text re-parsed and compared, every over-long output line inspected for a breakable space after its container prefix',
+                text='Generated prose documents (rich inline content, nested in quotes and lists to depth 4, with some code blocks, tables, HTML '
+                     'blocks and headings) are reflowed for L in {1,2,3,4,5,8,13,21,40,80,120} (quick) / every L in 1..120 (thorough): '
+                     'whitespace-normalised HTML unchanged, protected blocks untouched, over-long lines consist of one unbreakable word, '
+                     'reflowing again is the identity. The budget-exactly-zero situation is required to occur.',
+                note='Words that look like block markers are the property\'s recorded complementary class (one pinned witness).'),
 }
